@@ -28,6 +28,7 @@ def cases(tier, seed):
     for i, c in enumerate(cs):
         c["sel_seed"] = seed * 31 + i
         c["gen"]["maxfiles"] = 4 if i % 4 else 6
+    cs.append({"kind": "huge", "sel_seed": seed * 31 + 999})      # byte offsets beyond 2**31
     return cs
 
 
@@ -40,7 +41,44 @@ def multiset(arrs):
     return sorted((a.shape, np.ascontiguousarray(a).tobytes()) for a in arrs)
 
 
+def run_huge(case, work, rec):
+    """a binary file larger than 2 GiB: three boxes stored at byte offsets beyond 2**31"""
+    from amr_kitchen import PlotfileCooker
+    path, boxes, names, offs = workload.build_huge(work, case["sel_seed"])
+    rec.sample({"huge": {"offsets": offs, "fields": len(names)}})
+    pools.CTL.reset(mode="inproc", seed=1, default="reverse")
+    pck = PlotfileCooker(path)
+
+    def exp(bi, comps):
+        lo, hi, a = boxes[bi]
+        if a is None:
+            shp = tuple(h - l + 1 for l, h in zip(lo, hi))
+            return np.zeros(shp if isinstance(comps, int) else shp + (len(comps),))
+        return a[..., comps]
+    for fd, fsel, comps in (("int:5", 5, 5), ("name:f131", "f131", 131), ("list:[129, 130]", [129, 130], [129, 130])):
+        key = ("huge", fd)
+        try:
+            got = list(pck[fsel][0])
+            rec.count("iterations"); rec.count("offsets_beyond_2GiB")
+            if multiset(got) != multiset([exp(bi, comps) for bi in range(len(boxes))]):
+                rec.violation(f"level iteration over a binary file larger than 2 GiB does not yield the stored boxes: [{fd}][0]", key=key)
+            else:
+                rec.ok(key, True)
+            order = [3, 1, 2]
+            got = list(pck[fsel][0].iter(order))
+            rec.count("iter_selections")
+            if len(got) != 3 or not all(refparse.biteq(g, exp(bi, comps)) for g, bi in zip(got, order)):
+                rec.violation(f".iter did not yield the boxes stored beyond 2 GiB in the requested order: [{fd}][0].iter({order})", key=key + ("iter",))
+            else:
+                rec.ok(key + ("iter",), True)
+        except Exception as e:
+            rec.violation(f"iteration raised {type(e).__name__}: [{fd}][0] on a binary file larger than 2 GiB", key=key,
+                          witness={"exc": repr(e)[:300], "offsets": offs})
+
+
 def run_case(case, work, rec):
+    if case.get("kind") == "huge":
+        return run_huge(case, work, rec)
     from amr_kitchen import PlotfileCooker
     rng = random.Random(case["sel_seed"])
     m, path = workload.build(case, work)
